@@ -675,6 +675,14 @@ func (c *Wallet) ResolveCredentialManifest(authToken string, manifest json.RawMe
 		resolve(opts)
 	}
 
+	// a response or a credential handed in by the caller is resolved without touching the wallet's content: nothing
+	// below would look at the token (a credential id goes through Get, which does).
+	if opts.credentialID == "" {
+		if err = c.checkToken(authToken); err != nil {
+			return nil, err
+		}
+	}
+
 	switch {
 	case len(opts.rawResponse) > 0:
 		opts.response, err = verifiable.ParsePresentation(opts.rawResponse,
